@@ -20,6 +20,7 @@ type WTarget struct {
 	Ghost  string
 	Any    bool
 	Except []string // with Any: ghost variables that are not written
+	ElemBase Term   // all element objects selem(ElemBase, _) of a slice of structs (1-D field regions)
 }
 
 // evalTargets evaluates a modifies clause to write targets.
@@ -61,6 +62,29 @@ func (fc *FnCtx) evalTargets(x ast.Expr, env *Env) []WTarget {
 				s := x.Args[0].(*ast.BasicLit).Value
 				s = strings.Trim(s, "\"")
 				return []WTarget{{Region: s, Whole: true}}
+			case "elems":
+				// elems(s): every element of slice s (all fields, for slices of structs)
+				a := fc.evalExpr(x.Args[0], env)
+				if a.K != KSlice {
+					panic(specErr("elems(s): s must be a slice"))
+				}
+				et := a.T.Underlying().(*types.Slice).Elem()
+				var ts []WTarget
+				if su := structOf(et); su != nil {
+					for i := 0; i < su.NumFields(); i++ {
+						if isObjectType(su.Field(i).Type()) {
+							panic(specErr("elems(s): nested struct fields not supported"))
+						}
+						for _, lf := range cellLeaves(su.Field(i).Type()) {
+							ts = append(ts, WTarget{Region: typeName(et) + "." + su.Field(i).Name() + lf.suffix, ElemBase: a.Sl.Base})
+						}
+					}
+					return ts
+				}
+				for _, lf := range cellLeaves(et) {
+					ts = append(ts, WTarget{Region: "elem<" + leafTypeName(et) + ">" + lf.suffix, Idx: []Term{a.Sl.Base}, Row: true})
+				}
+				return ts
 			case "anybut":
 				// everything except the listed ghost variables
 				t := WTarget{Any: true}
@@ -196,6 +220,11 @@ func (fc *FnCtx) havoc(st *State, ts []WTarget) {
 			switch {
 			case t.Whole:
 				st.Heap[t.Region] = vc.sc.fresh(t.Region+"@", arraySort(ri.nidx, ri.leaf))
+			case t.ElemBase != "":
+				// the fields of every element object of one backing array
+				nm := vc.sc.fresh(t.Region+"@", arraySort(ri.nidx, ri.leaf))
+				fc.assume(fmt.Sprintf("(forall ((r Int)) (! (=> (or (>= r 0) (not (= (selem_b r) %s))) (= (select %s r) (select %s r))) :pattern ((select %s r))))", t.ElemBase, nm, cur, nm))
+				st.Heap[t.Region] = nm
 			case t.Row:
 				vc.setRegion(st, t.Region, ri.nidx, ri.leaf, app("store", cur, t.Idx[0], vc.sc.fresh("hv", arraySort(ri.nidx-1, ri.leaf))))
 			case t.Lo != "":
@@ -249,6 +278,10 @@ func (fc *FnCtx) allowedWrite(region string, idx []Term, row bool, lo, hi Term) 
 		switch {
 		case t.Whole:
 			return "true"
+		case t.ElemBase != "":
+			if len(idx) > 0 {
+				cs = append(cs, and(app("<", idx[0], "0"), eq(app("selem_b", idx[0]), t.ElemBase)))
+			}
 		case t.Row:
 			cs = append(cs, eq(idx[0], t.Idx[0]))
 		case t.Lo != "":
@@ -340,6 +373,18 @@ func (fc *FnCtx) frameCheckTargets(ts []WTarget, what string, in ssa.Instruction
 					c = "true"
 				}
 			}
+		case t.ElemBase != "":
+			// allowed when the backing array is fresh or the caller's frame names the same elements
+			alts := []Term{app(">=", app("root", t.ElemBase), fc.root().na0), eq(t.ElemBase, "0")}
+			mine, _ := fc.myTargets()
+			for _, m := range mine {
+				if m.Region == t.Region && (m.Whole || (m.ElemBase != "" && m.ElemBase == t.ElemBase)) {
+					alts = append(alts, "true")
+				} else if m.Region == t.Region && m.ElemBase != "" {
+					alts = append(alts, eq(m.ElemBase, t.ElemBase))
+				}
+			}
+			c = or(alts...)
 		default:
 			c = fc.allowedWrite(t.Region, t.Idx, t.Row, t.Lo, t.Hi)
 		}
@@ -848,7 +893,7 @@ func (fc *FnCtx) appendBuiltin(cc *ssa.CallCommon, in ssa.Instruction, st *State
 	}
 	newLen := vc.sc.define("applen", "Int", app("+", s.Sl.Len, addLen))
 	if isObjectType(et) {
-		panic(unsupported("append on slices of objects"))
+		return fc.appendStructs(s, add, et, newLen, st, resT)
 	}
 	// The result is modelled as a fresh backing array holding old ++ added.
 	// (Go may reuse the old array when capacity allows; writes through the old
@@ -869,6 +914,40 @@ func (fc *FnCtx) appendBuiltin(cc *ssa.CallCommon, in ssa.Instruction, st *State
 		fc.assume(fmt.Sprintf("(forall ((k Int)) (! (=> (and (<= 0 k) (< k %s)) (= (select %s k) (ite (< k %s) (select (select %s %s) (+ %s k)) %s))) :pattern ((select %s k))))",
 			newLen, a, s.Sl.Len, reg, s.Sl.Base, s.Sl.Off, srcAt, a))
 		vc.setRegion(st, name, 2, leafSort(lf.kind), app("store", reg, nb, a))
+	}
+	fc.note("append modelled as copy into a fresh backing array (aliasing of spare capacity not modelled)")
+	return Val{K: KSlice, T: resT, Sl: &SliceV{nb, "0", newLen, newCap}}
+}
+
+// appendStructs models append on a slice of structs: the result is a fresh
+// backing object whose elements' fields are those of old ++ added; every other
+// object keeps its fields.
+func (fc *FnCtx) appendStructs(s, add Val, et types.Type, newLen Term, st *State, resT types.Type) Val {
+	vc := fc.vc
+	su := structOf(et)
+	if su == nil || add.K != KSlice {
+		panic(unsupported("append on slices of arrays"))
+	}
+	owner := typeName(et)
+	nb := vc.alloc(st)
+	newCap := vc.sc.fresh("appcap", "Int")
+	fc.assume(app(">=", newCap, newLen))
+	for i := 0; i < su.NumFields(); i++ {
+		ft := su.Field(i).Type()
+		if isObjectType(ft) {
+			panic(unsupported("append on slices of structs with nested struct fields"))
+		}
+		for _, lf := range cellLeaves(ft) {
+			name := owner + "." + su.Field(i).Name() + lf.suffix
+			vc.eng.noteRegionType(owner+"."+su.Field(i).Name(), ft, "")
+			sort := leafSort(lf.kind)
+			cur := vc.region(st, name, 1, sort)
+			nm := vc.sc.fresh(name+"@", arraySort(1, sort))
+			fc.assume(fmt.Sprintf("(forall ((k Int)) (! (=> (and (<= 0 k) (< k %s)) (= (select %s (selem %s k)) (ite (< k %s) (select %s (selem %s (+ %s k))) (select %s (selem %s (+ %s (- k %s))))))) :pattern ((selem %s k))))",
+				newLen, nm, nb, s.Sl.Len, cur, s.Sl.Base, s.Sl.Off, cur, add.Sl.Base, add.Sl.Off, s.Sl.Len, nb))
+			fc.assume(fmt.Sprintf("(forall ((r Int)) (! (=> (or (>= r 0) (not (= (selem_b r) %s))) (= (select %s r) (select %s r))) :pattern ((select %s r))))", nb, nm, cur, nm))
+			st.Heap[name] = nm
+		}
 	}
 	fc.note("append modelled as copy into a fresh backing array (aliasing of spare capacity not modelled)")
 	return Val{K: KSlice, T: resT, Sl: &SliceV{nb, "0", newLen, newCap}}
